@@ -354,9 +354,22 @@ pub fn run(input: &Value) -> Case {
     let corner = named
         .iter()
         .any(|(c, p)| *p == (65534, 65535) && named.iter().any(|(c2, q)| c2 == c && *q == (65535, 65535)));
+    let mut classes: Vec<&str> = vec![];
     if corner {
-        j["known_class"] = json!(["pid-corner"]);
+        classes.push("pid-corner");
         tags.push("known:pid-corner".into());
+    }
+    // Known finding "id-collision": image ids are a 64-bit content hash reduced to 32 bits, so two different
+    // contents can get one id; the handler then takes the second for the first.  Histories holding two
+    // images of different content and equal id are in the class.
+    let ids: Vec<u64> = built.iter().map(|(img, _)| ids_of(img, None).0).collect();
+    let collision = (0..built.len()).any(|a| (0..a).any(|b| cids[a] != cids[b] && ids[a] == ids[b]));
+    if collision {
+        classes.push("id-collision");
+        tags.push("known:id-collision".into());
+    }
+    if !classes.is_empty() {
+        j["known_class"] = json!(classes);
     }
     let maxpix = contents.iter().map(|c| c.2.len()).max().unwrap_or(0);
     tags.push(format!("ops={}", match ops.len() { 0 => "0", 1 => "1", 2..=5 => "2-5", 6..=12 => "6-12", _ => "13+" }));
